@@ -49,6 +49,38 @@ def swarm_config(rng, idx, default_every=7):
     return cfg
 
 
+# Multi-step scenario templates: a quarter of the runs start with one of these before the random
+# walk takes over.  Steps: ('reach', phase) | ('ev', event) | ('fire', n) fire n due calls |
+# ('wait', n) let n timers fire / time pass WITHOUT answering pending connects or completing closes |
+# ('conn_ok',) | ('conn_refuse',) | ('cdone',)
+SCENARIOS = [
+    # operator stop/start around a session that has run its timers; the restart's connect stays pending
+    [("reach", "Established"), ("fire", 3), ("ev", "stop"), ("ev", "start"), ("wait", 4)],
+    [("reach", "Established"), ("fire", 2), ("ev", "stop"), ("cdone",), ("ev", "start"), ("wait", 4), ("conn_ok",)],
+    # version-error NOTIFICATION / peer close early in the session, then an unanswered reconnect
+    [("reach", "OpenConfirm"), ("fire", 1), ("ev", "notif_ver"), ("cdone",), ("wait", 5)],
+    [("reach", "OpenSent"), ("ev", "peer_close"), ("wait", 6)],
+    [("reach", "OpenSent"), ("ev", "notif_ver"), ("wait", 5)],
+    # error close whose completion is held back while the next session comes up
+    [("reach", "Established"), ("ev", "bad_marker"), ("wait", 2), ("conn_ok",), ("reach", "Established"), ("cdone",), ("wait", 3)],
+    [("reach", "Established"), ("ev", "stop"), ("ev", "start"), ("conn_ok",), ("reach", "Established"), ("cdone",), ("wait", 3)],
+    # connect-retry timer expiries before an attempt finally succeeds; then a long session
+    [("wait", 3), ("conn_ok",), ("reach", "Established"), ("fire", 4)],
+    [("conn_refuse",), ("wait", 2), ("conn_refuse",), ("wait", 4)],
+    # hold time 0 session, loss, then a peer that accepts TCP and stays silent
+    [("reach", "OpenSent"), ("ev", "open_hold0"), ("ev", "keepalive"), ("ev", "peer_reset"), ("wait", 2), ("conn_ok",), ("wait", 3)],
+    # second OPEN / late first KEEPALIVE in OpenConfirm
+    [("reach", "OpenConfirm"), ("ev", "open_valid"), ("fire", 2), ("ev", "keepalive"), ("fire", 4)],
+    [("reach", "OpenConfirm"), ("fire", 2), ("ev", "keepalive"), ("fire", 3)],
+    # peer closes in OpenSent, retry fails
+    [("reach", "OpenSent"), ("ev", "peer_close"), ("wait", 2), ("conn_refuse",), ("wait", 4)],
+    # a session that existed, then one or two failed reconnects
+    [("reach", "Established"), ("ev", "peer_reset"), ("wait", 2), ("conn_refuse",), ("wait", 2), ("conn_refuse",), ("wait", 4)],
+    [("reach", "Established"), ("ev", "notif_other"), ("cdone",), ("wait", 2), ("conn_refuse",), ("wait", 4)],
+    [("reach", "OpenConfirm"), ("ev", "peer_close"), ("wait", 2), ("wait", 3), ("conn_ok",), ("reach", "Established"), ("fire", 3)],
+]
+
+
 class FsmCtx(BaseCtx):
     prop = "C01"
     judge_model = True
@@ -69,7 +101,15 @@ class FsmCtx(BaseCtx):
 
     # ------------------------------------------------------------------ generation
     def plan_target(self, rng):
-        """Half of the runs first steer to a (phase, event) cell chosen from the table."""
+        """A quarter of the runs start with a multi-step scenario; half of the others first steer to a
+        (phase, event) cell chosen from the table."""
+        self.script = []
+        if rng.chance(0.25):
+            self.script = [list(st) for st in rng.pick(SCENARIOS)]
+            self.target = None
+            self.planned = True
+            self.stats["gen:scenario_runs"] += 1
+            return
         if rng.chance(0.5):
             self.target = (rng.pick(PHASES), rng.pick(MSG_EVENTS + ENV_EVENTS + ["conn_ok", "conn_refuse", "conn_timeout", "cdone_late"]))
         else:
@@ -86,6 +126,11 @@ class FsmCtx(BaseCtx):
             return None
         cfg = self.cfg
         live = w.live_conns()
+        # --- scripted scenario first
+        while getattr(self, "script", None):
+            op = self.script_op(rng)
+            if op is not None:
+                return op
         # --- steering towards the target cell
         if self.target is not None:
             phase, ev = self.target
@@ -148,6 +193,50 @@ class FsmCtx(BaseCtx):
         if kind == "cdone":
             k = [k for k, c in enumerate(live) if c.closing()][0]
             return ["cdone", k]
+        return None
+
+    def script_op(self, rng):
+        """Next op of the scenario script (None: step finished or not applicable -> look again)."""
+        w = self.world
+        step = self.script[0]
+        kind = step[0]
+        live = w.live_conns()
+        if kind == "reach":
+            if self.model.phase == step[1]:
+                self.script.pop(0)
+                return None
+            step.append(0) if len(step) == 2 else None
+            step[2] += 1
+            op = self.toward(rng, step[1]) if step[2] < 12 else None
+            if op is None:
+                self.script = []
+            return op
+        if kind == "ev":
+            self.script.pop(0)
+            return self.event_op(rng, step[1])
+        if kind in ("fire", "wait"):
+            if step[1] <= 0:
+                self.script.pop(0)
+                return None
+            step[1] -= 1
+            due = w.reactor.due()
+            if due:
+                return ["fire", rng.randrange(len(due))]
+            if kind == "wait":
+                return ["advance", rng.pick([1.0, 30.0, 300.0])]
+            self.script.pop(0)
+            return None
+        self.script.pop(0)
+        if kind in ("conn_ok", "conn_refuse"):
+            for k, c in enumerate(live):
+                if c.state == "connecting":
+                    return [kind, k]
+            return None
+        if kind == "cdone":
+            for k, c in enumerate(live):
+                if c.closing():
+                    return ["cdone", k]
+            return None
         return None
 
     def advance_op(self, rng):
@@ -494,7 +583,7 @@ class FsmProfile(BaseProfile):
             "stop/start/state via REST, delayed close completion); half of the runs first steer to a (model state, event) "
             "cell drawn from the table; non-trivial = reached OpenSent or beyond; distinct = distinct sequence of "
             "(model state, abstract event) cells")
-    probes = ["ev:open_valid", "ev:open_hold0", "ev:open_err1", "ev:open_err2", "ev:open_err6", "ev:keepalive", "ev:update",
+    probes = ["gen:scenario_runs", "ev:open_valid", "ev:open_hold0", "ev:open_err1", "ev:open_err2", "ev:open_err6", "ev:keepalive", "ev:update",
               "ev:notif(2,1)", "ev:notif(other)", "ev:rr", "ev:bad_marker", "ev:bad_length", "ev:bad_type",
               "ev:peer_close", "ev:close_done", "ev:conn_timeout", "ev:conn_refused", "ev:stop", "ev:start",
               "ev:timer", "same_instant_choice"]
